@@ -33,7 +33,14 @@ this prelude, on every run. What is *assumed* about Go here (the translator's se
 * `int64` / `time.Duration` multiplication wraps (`wrapInt64`); `strconv.ParseInt(s, 10, 64)`, the one use of
   `strings.IndexFunc` (first rune outside an ASCII range) and `utf8.DecodeRuneInString` (approximate: only error texts
   depend on it) are re-modelled below; an error value built from a struct (`&UnmarshalError{…}`) is its type name and
-  reason text (`errStruct`); a `nil` assigned to a slice that is never compared with `nil` is the empty list.
+  reason text (`errStruct`); a `nil` assigned to a slice that is never compared with `nil` is the empty list;
+* a `bytes.Buffer` / `strings.Builder` handed to a callee as its `io.Writer` is `bufWriter` (appends, never fails); the
+  package's `ResponseWriter` is a `ResW` (a state and what `Write`, `Flush` and `Header()[k] = v` do to it; as an
+  `io.Writer` it is `resWriter`: same state, same `Write`); a `*http.Request` kept in a struct is `Unit`; a package-level
+  `[]string` with constant elements is its value;
+* `float64` is an abstract carrier `φ` with the operations the Go code performs (`FloatI`; nothing assumed of them);
+  a `*rand.Rand` is the list of the draws it will return (`rngFloat64`; asking for more than were supplied is a fuel
+  fault); `time.Now()` / `time.Since(t)` read the parameter `now` of the translated function (one reading per call).
 -/
 namespace GoSSE.GoRT
 open GoSSE
